@@ -67,6 +67,7 @@ type World struct {
 	tableSeq   int
 	start      time.Time
 
+	held         map[string]int
 	PermuteMerge bool // permute the version list at every open (hook H2)
 	PermuteMaps  bool // permute former map iterations (hook H3)
 	Jitter       bool // advance the clock by seeded amounts between events
@@ -259,7 +260,7 @@ func (w *World) Run() {
 			w.OnDeliver = func(*Request) Fault { return FaultErr }
 			w.Budget = 1 << 30
 		}
-		if w.Jitter && w.choose(4) == 0 {
+		if w.Jitter && w.choose(4) == 1 { // 0 is the bland decision: no clock movement
 			time.Sleep(jitterSteps[w.choose(len(jitterSteps))])
 			continue
 		}
@@ -293,6 +294,38 @@ func (w *World) deliver(r *Request, f Fault) {
 }
 
 func (w *World) pick(pend []*Request) int {
+	if w.Policy == "hold-list" {
+		// Bias into the LIST->GET window of an opener: after a LIST of the
+		// current versions is served, that client is sometimes held back for
+		// a few deliveries while the others run.
+		var free []int
+		for i, r := range pend {
+			if w.held[r.H.Client] > 0 {
+				continue
+			}
+			free = append(free, i)
+		}
+		for c := range w.held {
+			if w.held[c] > 0 {
+				w.held[c]--
+			}
+		}
+		idx := 0
+		if len(free) > 0 {
+			idx = free[w.choose(len(free))]
+		} else {
+			idx = w.choose(len(pend))
+		}
+		r := pend[idx]
+		if r.Op == OpList && strings.HasSuffix(r.Key, "root/current/") && w.choose(2) == 0 {
+			if w.held == nil {
+				w.held = map[string]int{}
+			}
+			w.held[r.H.Client] = 1 + w.choose(10)
+			w.Probe("opener-held-after-list")
+		}
+		return idx
+	}
 	switch w.Policy {
 	case "random":
 		return w.choose(len(pend))
@@ -341,6 +374,9 @@ type Client struct {
 }
 
 func (w *World) NewClient(name string) *Client {
+	if atomic.LoadInt32(&w.active) != 0 {
+		panic("NewClient while client tasks are outstanding: it would run them to completion")
+	}
 	c := &Client{W: w, Name: name, work: make(chan func())}
 	dead := false
 	c.dead = &dead
